@@ -11,6 +11,7 @@ the battery block's passes and bisection on the battery object with the SoC set 
 -/
 import SpiceEv.Proofs.StratBalancedMarketBook
 import SpiceEv.Proofs.StratBalancedMarketBookStep
+import SpiceEv.Proofs.StratBalancedMarketBookWhole
 import SpiceEv.Proofs.StratBalancedMarketToy
 set_option linter.unusedSectionVars false
 namespace SpiceEv
@@ -100,7 +101,9 @@ theorem C06_balanced_market_step_gc_bookkeeping (ops : Ops α B) (env : Env α) 
     ∃ gc', gc' ∈ w'.gcs ∧ gc'.id = gcId ∧
       (∀ k, (w.station? k).isSome = true → loadAt gc' k - loadAt gc k = stPow w' k - stPow w k) ∧
       (∀ k, (w'.station? k).isSome = (w.station? k).isSome) ∧
-      (∀ k val, sdGet cmds k = some val → val = loadAt gc' k ∧ (w.station? k).isSome = true) :=
+      (∀ k val, sdGet cmds k = some val → val = loadAt gc' k ∧ (w.station? k).isSome = true) ∧
+      w'.gcs = w.gcs.map (fun x => if x.id == gcId then gc' else x) ∧
+      w'.batteries.map (·.id) = w.batteries.map (·.id) :=
   stepGc_bookkeeping ops env w w' gcId cmds gc hgc hsb h
 
 /-- corollary: when entry and power of every station agree before the call (after the base class has
@@ -112,12 +115,39 @@ theorem C06_balanced_market_step_gc_commands_are_station_powers (ops : Ops α B)
     (h0 : ∀ k, (w.station? k).isSome = true → loadAt gc k = stPow w k)
     (h : stepGc ops env w gcId = .ok (w', cmds)) :
     ∀ k val, sdGet cmds k = some val → val = stPow w' k := by
-  obtain ⟨gc', _, _, hent, _, hcmd⟩ := stepGc_bookkeeping ops env w w' gcId cmds gc hgc hsb h
+  obtain ⟨gc', _, _, hent, _, hcmd, _, _⟩ := stepGc_bookkeeping ops env w w' gcId cmds gc hgc hsb h
   intro k val hk
   obtain ⟨hv, hs⟩ := hcmd k val hk
   have := hent k hs
   rw [h0 k hs] at this
   rw [hv]; linarith
+
+/-- **Bookkeeping of the whole step** (composition of the per-`step_gc` statements over all connectors).
+With unique connector ids and no station sharing its id with a stationary battery: after
+`BalancedMarket.step` the `current_power` of every station equals the total change of its entries in
+`current_loads` over all connectors — `entryDelta w gcs' k = Σ_{g' ∈ gcs'} (g'.current_loads.get(k, 0) −
+(entry of k in the connector of the same id before the step))` — i.e. the signed sum of the average powers
+of all real battery calls booked for that station in this step (planning pass, V2G apply, surplus pass; the
+battery block only touches battery keys, the simulations nothing).  The stations and the connector ids are
+those of before.  No assumption on the battery. -/
+theorem C06_balanced_market_step_bookkeeping (ops : Ops α B) (env : Env α) (w w' : SWorld α B)
+    (cmds : List (String × α)) (hnd : (w.gcs.map (·.id)).Nodup)
+    (hsb : ∀ b ∈ w.batteries, w.station? b.id = none)
+    (h : BalancedMarket.step ops env w = .ok (w', cmds)) :
+    (∀ k, (w.station? k).isSome = true → stPow w' k = entryDelta w w'.gcs k) ∧
+    (∀ k, (w'.station? k).isSome = (w.station? k).isSome) ∧
+    w'.gcs.map (·.id) = w.gcs.map (·.id) :=
+  step_bookkeeping ops env w w' cmds hnd hsb h
+
+/-- Non-vacuity: two connectors, one vehicle at each (stale station powers 7 and 9 before the step are
+reset): afterwards station power = change of the entry, for both stations (`≈ 1.5` and `1`). -/
+example :
+    let w : SWorld ℚ ℚ := ⟨[toyGc, ⟨"GC2", 5, some (.fixed (3/10)), [("load", 4)]⟩],
+      [⟨"CS1", "GC", 11, 0, 7⟩, ⟨"CS2", "GC2", 11, 0, 9⟩],
+      [toyVeh false (1/2), ⟨"v2", some "CS2", 8/10, some (2 * hourUs), 0, false, 1/2, 1/2⟩], []⟩
+    (BalancedMarket.step toyOps (toyEnv none) w).toOption.map
+      (fun r => (stPow r.1 "CS1", entryDelta w r.1.gcs "CS1", stPow r.1 "CS2", entryDelta w r.1.gcs "CS2")) =
+      some (1572813/1048576, 1572813/1048576, 1, 1) := by decide +kernel
 
 /-- Non-vacuity of the two: the flat-price world has no battery, entry and power of "CS1" are both 0 before
 the call. -/
